@@ -352,6 +352,17 @@ func (in *inliner) calleeDecl(call *ast.CallExpr) (*types.Func, *ast.FuncDecl) {
 	if InlineExclude != nil && InlineExclude(f) {
 		return nil, nil
 	}
+	// directly recursive helpers are left alone
+	selfCall := false
+	ast.Inspect(d.Body, func(n ast.Node) bool {
+		if c, ok := n.(*ast.CallExpr); ok && Callee(in.info, c) == types.Object(f) {
+			selfCall = true
+		}
+		return true
+	})
+	if selfCall {
+		return nil, nil
+	}
 	// imported package names used by the helper must mean the same in the file being rewritten
 	okImports := true
 	ast.Inspect(d, func(n ast.Node) bool {
